@@ -394,6 +394,39 @@ def c05_value_case(data, junk):
     return None
 
 
+def against_reference(data, r):
+    """compare what pamqp decoded (r = (consumed, channel, frame)) with the independent reference
+    decoder's reading of the same bytes; -> None or (expected, actual)"""
+    n, ch, kind, content = refenc.parse_frame(data)
+    if r[0] != n or r[1] != ch:
+        return ((n, ch), r[:2])
+    f = r[2]
+    if kind == 'M':
+        index, name, vals = content
+        if type(f) is not commands.INDEX_MAPPING.get(index):
+            return (name, type(f).__name__)
+        for a, v in vals.items():
+            if not same(v, getattr(f, a)):
+                return ('%s.%s=%r' % (name, a, v), '%r' % (getattr(f, a),))
+    elif kind == 'H':
+        class_id, weight, size, props = content
+        if (f.class_id, f.weight, f.body_size) != (class_id, weight, size):
+            return ((class_id, weight, size), (f.class_id, f.weight, f.body_size))
+        for a in commands.Basic.Properties.__slots__:
+            exp = props.get(a, '' if a == 'cluster_id' else None)
+            if not same(exp, getattr(f.properties, a)):
+                return ('%s=%r' % (a, exp), '%r' % (getattr(f.properties, a),))
+    elif kind == 'B':
+        if not isinstance(f, body.ContentBody) or f.value != content:
+            return ('body of %d bytes' % len(content), type(f).__name__)
+    elif kind == 'P':
+        if not isinstance(f, header.ProtocolHeader) or (f.major_version, f.minor_version, f.revision) != tuple(content):
+            return (content, type(f).__name__)
+    elif kind == 'HB' and not isinstance(f, heartbeat.Heartbeat):
+        return ('Heartbeat', type(f).__name__)
+    return None
+
+
 @replayer
 def c05_frame_case(data, junk):
     n, ch, kind, content = refenc.parse_frame(data)
@@ -524,6 +557,15 @@ def c06_stream_case(datas, tail):
         pos += r[0]
     if pos != len(buf):
         return (len(buf), pos)
+    # exactly those frames: every decoded object (inspected after the WHOLE stream was decoded) must be
+    # what an independent reference decoder reads from that frame's own bytes
+    for i, (d, r) in enumerate(zip(datas, got)):
+        try:
+            bad = against_reference(d, r)
+        except (refenc.Malformed, refenc.Refused):
+            bad = None
+        if bad:
+            return ('frame %d of the stream: %s' % (i, bad[0],), bad[1])
     return None
 
 
@@ -1139,9 +1181,89 @@ def c12_frame_case(key, vals, seed):
     return None
 
 
+def twins_of(v):
+    """values equal (and hash-equal) to v but with a different wire form / type"""
+    import math
+    out = []
+    try:
+        if isinstance(v, D) and v.is_finite():
+            e = v.as_tuple().exponent
+            if -20 < e < 5:
+                out.append(v.quantize(D(1).scaleb(e - 1)))
+            if v == v.to_integral_value() and abs(v) < 2 ** 31:
+                out.append(D(int(v)))
+        elif isinstance(v, bool):
+            out += [int(v), float(v), D(int(v))]
+        elif isinstance(v, float) and math.isfinite(v):
+            if v == 0:
+                out.append(-v)
+            if v == int(v) and abs(v) < 2 ** 31:
+                out.append(int(v))
+        elif isinstance(v, int):
+            if abs(v) < 2 ** 53:
+                out.append(float(v))
+            if abs(v) < 2 ** 31:
+                out.append(D(v))
+            if v in (0, 1):
+                out.append(bool(v))
+    except Exception:  # noqa
+        pass
+    return out
+
+
+def scalars_in(v):
+    if isinstance(v, dict):
+        for x in v.values():
+            yield from scalars_in(x)
+    elif isinstance(v, list):
+        for x in v:
+            yield from scalars_in(x)
+    else:
+        yield v
+
+
+@replayer
+def c12_history_case(v, seed):
+    """encode v, then a history of other encodes (equal-but-different twins of its scalars, then
+    thousands of distinct scalars), then v again: the bytes must be the same"""
+    import random
+    rnd = random.Random(seed)
+    k1, b1 = catching(encode.encode_table_value, v)
+    for x in scalars_in(v):
+        try:
+            for t in twins_of(x):
+                catching(encode.encode_table_value, {'t': t})
+        except Exception:  # noqa
+            pass
+    for i in range(2600):
+        catching(encode.encode_table_value, rnd.choice([i * 7919 + 13, i / 7.0, D(i) / D(8), 's%d' % i]))
+    k2, b2 = catching(encode.encode_table_value, v)
+    if k1 != k2 or (k1 == 'ok' and b1 != b2):
+        return (b1.hex()[:300] if k1 == 'ok' else k1, b2.hex()[:300] if k2 == 'ok' else k2)
+    # and the twins themselves encode like a fresh value of their own type: compare with the reference
+    for x in scalars_in(v):
+        for t in twins_of(x):
+            kt, bt = catching(encode.encode_table_value, t)
+            try:
+                ref = refenc.field(t)
+            except refenc.Unencodable:
+                continue
+            if kt == 'ok' and bt != ref:
+                return ('%r encodes as %s' % (t, ref.hex()), bt.hex())
+    return None
+
+
 def oracle_c12(ctx):
     res = Result('c12.order')
     g = ctx.gen
+    for i in range(60 if ctx.thorough else 12):
+        v = g.table_ok(depth=2, breadth=4)
+        v.update({'d1': D('2.50'), 'f0': 0.0, 'b': True, 'i': 1, 'd2': D('7')})
+        res.case('history ' + pyrepr(v), tag='history', sample={'value': pyrepr(v)[:160]})
+        k, bad = catching(c12_history_case, v, i)
+        if k != 'ok' or bad:
+            res.violation('encoding depends on what was encoded before', {'fn': 'c12_history_case', 'args': pyrepr((v, i))},
+                          bad[0] if k == 'ok' else 'oracle runs', bad[1] if k == 'ok' else repr(bad))
     for i in range(8000 if ctx.thorough else 1500):
         v = g.table_ok(depth=g.r.choice([1, 2, 3]), breadth=g.r.choice([2, 3, 6])) if i % 5 else g.value_ok(3, 4)
         if i % 17 == 0:
@@ -1277,6 +1399,22 @@ def oracle_c13(ctx):
             k, r = catching(frame.unmarshal, data)
             if k != 'ok':
                 res.violation('decoding %s applied validation (or failed)' % name, {'fn': 'c05_frame_case', 'args': pyrepr((data, b''))}, 'decodes', repr(r))
+    for i in range(200 if ctx.thorough else 60):
+        data, exp = grammar.header_frame(g)
+        res.case('decode header ' + data.hex(), tag='decode-no-validate')
+        k, r = catching(frame.unmarshal, data)
+        if k != 'ok':
+            res.violation('decoding a content header applied validation (or failed)', {'fn': 'c05_frame_case', 'args': pyrepr((data, b''))}, 'decodes', repr(r))
+    for dm in (0, 3, 255):
+        for cid in (b'', b'\x01x'):
+            flags = 0x1000 | (0x0004 if cid else 0)
+            p_ = b'\x00\x3c\x00\x00' + b'\x00' * 8 + struct.pack('>H', flags) + bytes([dm]) + cid
+            data = b'\x02\x00\x01' + struct.pack('>I', len(p_)) + p_ + b'\xce'
+            res.case('decode header dm=%d cid=%r' % (dm, cid), tag='decode-no-validate')
+            k, r = catching(frame.unmarshal, data)
+            if k != 'ok' or r[2].properties.delivery_mode != dm:
+                res.violation('decoding a content header with delivery_mode=%d cluster_id=%r' % (dm, cid), {'fn': 'c05_frame_case', 'args': pyrepr((data, b''))},
+                              'decodes with delivery_mode=%d' % dm, repr(r))
     # every code point as a name character
     pat_ok = set(spec_tables.NAME_CHARS)
     cps = range(0x110000) if ctx.thorough else list(range(0x400)) + g.r.sample(range(0x400, 0x110000), 3000)
@@ -1627,6 +1765,7 @@ def oracle_c16(ctx):
                               {'fn': 'none', 'args': '()', 'line': line[:500]}, out[:300], again[:300])
     finally:
         encode.DEPRECATED_RABBITMQ_SUPPORT = old
+    c16_fresh_processes(ctx, res, g.r.randrange(1 << 30), 1200 if ctx.thorough else 300)
     # (2) objects returned by separate calls never share mutable state
     made = []
     for key, cls in commands.INDEX_MAPPING.items():
@@ -1723,6 +1862,79 @@ def hang_replay():
         except Exception:  # noqa
             continue
     return {'fn': 'none', 'args': '()'}
+
+
+C16_CHILD = r"""
+import sys, json, os
+sys.path.insert(0, os.environ['VERIF_TOOLS'])
+import gen, lanes, real
+class Ctx: pass
+spec = json.load(sys.stdin)
+ctx = Ctx(); ctx.thorough = False; ctx.generated = json.load(open(spec['generated'])); ctx.literals = []
+ctx.gen = gen.Gen(spec['seed'])
+ops = lanes.api_ops(ctx, spec['n'])
+out = {}
+for i in spec['order']:
+    line, thunk, desc = ops[i]
+    if line.startswith('api.toggle'):
+        continue
+    real.encode.DEPRECATED_RABBITMQ_SUPPORT = spec['flags'][i]
+    o = thunk()
+    out[i] = o if isinstance(o, str) else 'ok'
+json.dump({'lines': [o[0][:200] for o in ops], 'out': out}, sys.stdout)
+"""
+
+
+def c16_fresh_processes(ctx, res, seed, n, procs=3):
+    """the same calls, each with the switch it saw, in FRESH interpreters and in a different order:
+    results must equal the ones obtained inside the long history"""
+    import random
+    gen_path = os.path.join(os.path.dirname(os.path.abspath(__file__)), '..', 'lean', 'Pamqp', 'Generated', 'generated.json')
+    sub = type('C', (), {})()
+    sub.thorough, sub.generated, sub.literals = False, ctx.generated, []
+    sub.gen = G.Gen(seed)
+    ops = lanes.api_ops(sub, n)
+    old = encode.DEPRECATED_RABBITMQ_SUPPORT
+    encode.DEPRECATED_RABBITMQ_SUPPORT = False
+    flags, outs = [], []
+    try:
+        flag = False
+        for line, thunk, desc in ops:
+            flags.append(flag)
+            o = thunk()
+            outs.append(o if isinstance(o, str) else 'ok')
+            if line.startswith('api.toggle'):
+                flag = {'d': True, '1': True, '0': False}[line.split(' ')[1]]
+    finally:
+        encode.DEPRECATED_RABBITMQ_SUPPORT = old
+    rnd = random.Random(seed)
+    children = []
+    for k in range(procs):
+        order = list(range(len(ops)))
+        rnd.shuffle(order)
+        env = dict(os.environ, VERIF_TOOLS=os.path.dirname(os.path.abspath(__file__)), PAMQP_REPO=real.REPO, PYTHONDONTWRITEBYTECODE='1')
+        p = subprocess.Popen([sys.executable, '-B', '-c', C16_CHILD], stdin=subprocess.PIPE, stdout=subprocess.PIPE, stderr=subprocess.PIPE, env=env)
+        p.stdin.write(json.dumps({'seed': seed, 'n': n, 'order': order, 'flags': flags, 'generated': gen_path}).encode())
+        p.stdin.close()
+        children.append(p)
+    for k, p in enumerate(children):
+        o = p.stdout.read()
+        e = p.stderr.read()
+        p.wait()
+        if p.returncode != 0:
+            res.notes.append('fresh-interpreter child %d failed: %s' % (k, e.decode()[-300:]))
+            continue
+        r = json.loads(o)
+        if r['lines'] != [x[0][:200] for x in ops]:
+            res.notes.append('fresh-interpreter child %d generated a different operation list (generator not reproducible)' % k)
+            continue
+        for i_s, got in r['out'].items():
+            i = int(i_s)
+            res.case('fresh %d %d' % (k, i), tag='fresh interpreter')
+            if got != outs[i]:
+                res.violation('call %d gives a different result in a fresh interpreter (switch=%s) than inside the history' % (i, flags[i]),
+                              {'fn': 'none', 'args': '()', 'line': ops[i][0][:500], 'switch': flags[i]}, got[:300], outs[i][:300])
+                return
 
 
 def replay(rep):
